@@ -1,6 +1,6 @@
 """C12 hwloc_topology_dup: equivalent and independent."""
 from prog import Program
-import effects, dup, shmem, extent
+import effects, dup, shmem, extent, uaf
 
 OWN_T = [("hwloc__topology_dup", ["new"]), ("hwloc_internal_distances_dup", ["new"]), ("hwloc_internal_distances_dup_one", ["new"]),
          ("hwloc_internal_memattrs_dup", ["new"]), ("hwloc_internal_cpukinds_dup", ["new"]),
@@ -55,6 +55,9 @@ def run(chk, tier):
     for fn, u in (("hwloc_internal_memattrs_dup", "memattrs.c"), ("hwloc_internal_cpukinds_dup", "cpukinds.c"), ("hwloc__duplicate_object", "topology.c")):
         m += dup.memcpy_pointer_fields(chk, P, fn, u)
     chk.floor("R-NOALIAS", "pointer stores on the copy examined", m, 30)
+    chk.rule("R-UAF", "no use of a pointer after it was released: may-dataflow on released lvalues (free, hwloc_bitmap_free, hwloc_free_unlinked_object, closedir, ...), killed by re-assignment, with a correlated-condition path search and whole-program constant fields to discard infeasible paths")
+    nua = uaf.run(chk, P, units=('topology.c', 'distances.c', 'memattrs.c', 'cpukinds.c'))
+    chk.floor("R-UAF", "release sites examined", nua, 100)
     chk.rule("R-CACHEINV", "validity flags of pointer caches are cleared and cached object pointers reset on the copy")
     dup.cacheinv(chk, P)
     chk.rule("R-TMA", "no plain allocator on the tma duplication path (see C19)")
@@ -63,7 +66,8 @@ def run(chk, tier):
     chk.rule("R-EXTENT", "sibling agreement on the extent of bulk copies of one array field")
     ne = extent.run(chk, P, list(P.units), fields=set(FIELDS))
     chk.floor("R-EXTENT", "bulk operations on distances/memattr arrays", ne, 11)
-    chk.decided += ["nothing is forgotten: every field of topology/object/distances/memattr/cpukind/infos records is set on the copy",
+    chk.decided += ["the duplication functions' failure paths release each allocation once (no use after release)",
+                    "nothing is forgotten: every field of topology/object/distances/memattr/cpukind/infos records is set on the copy",
                     "the copy shares no mutable storage: no source pointer stored in the copy except object userdata; copied arrays have the allocation's extent",
                     "pointer caches are invalidated so that they are rebuilt against the new tree"]
     chk.undecided += ["equality of values / identical XML export", "leak freedom on error paths"]
